@@ -378,45 +378,172 @@ Definition m15_in_window (c : pctx) (ts : Z) : bool := Z.leb (floor15 (c_from_ns
 Definition zero_time_ns : Z := 62135596800 * 1000000000.
 Definition go_truncate (t d : Z) : Z := t - (t + zero_time_ns) mod d.
 
-Record pentry := { pe_ts : Z; pe_fp : N; pe_val : Qc }.
-(* ZeroEaterPlanner: per input batch the entries whose value is not 0; empty batches are not forwarded *)
-Definition zero_eater (batches : list (list pentry)) : list (list pentry) :=
-  filter (fun b => negb (match b with [] => true | _ => false end))
-         (map (filter (fun e => negb (qeqb (pe_val e) (qz 0)))) batches).
+(* generic in the value type: the post-processors only test a value for being zero *)
+Section POST.
+  Context {V : Type} (is_zero : V -> bool) (zero : V).
+  Record pentry := { pe_ts : Z; pe_fp : N; pe_val : V }.
+  (* ZeroEaterPlanner: per input batch the entries whose value is not 0; empty batches are not forwarded *)
+  Definition zero_eater (batches : list (list pentry)) : list (list pentry) :=
+    filter (fun b => negb (match b with [] => true | _ => false end))
+           (map (filter (fun e => negb (is_zero (pe_val e)))) batches).
 
-(* FixPeriodPlanner: per series (run of equal fingerprints) an array of (to-from)/step+1 slots starting at `from`;
-   an entry of window [b, b+d) fills slots (b-from)/step .. (b+d-from)/step (Go division: truncation), clamped *)
-Fixpoint fill (vals : list Qc) (i lo hi : Z) (v : Qc) : list Qc :=
-  match vals with
-  | [] => []
-  | x :: r => (if Z.leb lo i && Z.leb i hi then v else x) :: fill r (i + 1) lo hi v
-  end.
-Definition fix_place (from step d : Z) (n : Z) (vals : list Qc) (e : pentry) : list Qc :=
-  let b := Z.quot (pe_ts e) d * d in
-  let i0 := Z.quot (b - from) step in
-  let i1 := Z.quot (Z.quot (pe_ts e) d * d + d - from) step in
-  if Z.ltb i1 0 || Z.leb n i0 then vals
-  else fill vals 0 (Z.max i0 0) (if Z.leb n i1 then n - 1 else i1) (pe_val e).
-Fixpoint zrange (k : nat) (i : Z) : list Z := match k with O => [] | S k' => i :: zrange k' (i + 1) end.
-Definition fix_export (from step : Z) (fp : N) (vals : list Qc) : list (list pentry) :=
-  let es := flat_map (fun iv => if qeqb (snd iv) (qz 0) then [] else [{| pe_ts := from + fst iv * step; pe_fp := fp; pe_val := snd iv |}])
-                     (combine (zrange (List.length vals) 0) vals) in
-  match es with [] => [] | _ => [es] end.
-(* state: None before the first entry, else (fingerprint, slots) *)
-Fixpoint fix_run (from step d n : Z) (st : option (N * list Qc)) (es : list pentry) : list (list pentry) :=
-  match es with
-  | [] => match st with Some (f, vals) => fix_export from step f vals | None => [] end
-  | e :: r =>
-    match st with
-    | Some (f, vals) =>
-      if N.eqb (pe_fp e) f then fix_run from step d n (Some (f, fix_place from step d n vals e)) r
-      else fix_export from step f vals ++
-           fix_run from step d n (Some (pe_fp e, fix_place from step d n (repeat (qz 0) (Z.to_nat n)) e)) r
-    | None => fix_run from step d n (Some (pe_fp e, fix_place from step d n (repeat (qz 0) (Z.to_nat n)) e)) r
-    end
-  end.
-Definition fix_period (from to step d : Z) (batches : list (list pentry)) : list (list pentry) :=
-  fix_run from step d (Z.quot (to - from) step + 1) None (List.concat batches).
+  (* FixPeriodPlanner: per series (run of equal fingerprints) an array of (to-from)/step+1 slots starting at `from`;
+     an entry of window [b, b+d) fills slots (b-from)/step .. (b+d-from)/step (Go division: truncation), clamped *)
+  Fixpoint fill (vals : list V) (i lo hi : Z) (v : V) : list V :=
+    match vals with
+    | [] => []
+    | x :: r => (if Z.leb lo i && Z.leb i hi then v else x) :: fill r (i + 1) lo hi v
+    end.
+  Definition fix_place (from step d : Z) (n : Z) (vals : list V) (e : pentry) : list V :=
+    let b := Z.quot (pe_ts e) d * d in
+    let i0 := Z.quot (b - from) step in
+    let i1 := Z.quot (Z.quot (pe_ts e) d * d + d - from) step in
+    if Z.ltb i1 0 || Z.leb n i0 then vals
+    else fill vals 0 (Z.max i0 0) (if Z.leb n i1 then n - 1 else i1) (pe_val e).
+  Fixpoint zrange (k : nat) (i : Z) : list Z := match k with O => [] | S k' => i :: zrange k' (i + 1) end.
+  Definition fix_export (from step : Z) (fp : N) (vals : list V) : list (list pentry) :=
+    let es := flat_map (fun iv => if is_zero (snd iv) then [] else [{| pe_ts := from + fst iv * step; pe_fp := fp; pe_val := snd iv |}])
+                       (combine (zrange (List.length vals) 0) vals) in
+    match es with [] => [] | _ => [es] end.
+  (* state: None before the first entry, else (fingerprint, slots) *)
+  Fixpoint fix_run (from step d n : Z) (st : option (N * list V)) (es : list pentry) : list (list pentry) :=
+    match es with
+    | [] => match st with Some (f, vals) => fix_export from step f vals | None => [] end
+    | e :: r =>
+      match st with
+      | Some (f, vals) =>
+        if N.eqb (pe_fp e) f then fix_run from step d n (Some (f, fix_place from step d n vals e)) r
+        else (fix_export from step f vals ++
+              fix_run from step d n (Some (pe_fp e, fix_place from step d n (repeat zero (Z.to_nat n)) e)) r)%list
+      | None => fix_run from step d n (Some (pe_fp e, fix_place from step d n (repeat zero (Z.to_nat n)) e)) r
+      end
+    end.
+  Definition fix_period (from to step d : Z) (batches : list (list pentry)) : list (list pentry) :=
+    fix_run from step d (Z.quot (to - from) step + 1) None (List.concat batches).
+End POST.
+Arguments pentry : clear implicits.
 (* the window handed to the SQL planners *)
 Definition fix_from (from d : Z) : Z := go_truncate from d.
 Definition fix_to (to d : Z) : Z := go_truncate to d + d.
+
+(* ================= specification oracle on the implementation's observations ================= *)
+(* The check extracts, from the SQL text the REAL planners produced, the aggregate fragment and the window
+   divisor of the range-aggregation / vector-aggregation select, reads them back with the parsers below
+   (the inverse of lra_val_sql / uw_val_sql / agg_val_sql / m15_val_sql, with an arbitrary decimal divisor), and
+   compares their value on a fixed witness window with the reference function. A fragment that reads back
+   to a different function yields a concrete failing input (query + witness rows). *)
+Inductive obs_fn := OCount | OBytes | OSum | OAvg | OMax | OMin | OFirst | OLast | OVar | OStd | OCountMerge.
+Fixpoint split_at (sep s : string) (fuel : nat) (acc : string) : option (string * string) :=
+  if prefixb sep s then Some (rev_s acc "", substring (String.length sep) (String.length s) s) else
+  match fuel, s with
+  | S f, String c r => split_at sep r f (String c acc)
+  | _, _ => None
+  end.
+Definition obs_fn_of (s : string) : option obs_fn :=
+  if String.eqb s "toFloat64(COUNT())" then Some OCount
+  else if String.eqb s "toFloat64(sum(length(_string)))" then Some OBytes
+  else if String.eqb s "sum(unwrap_1.value)" then Some OSum
+  else if String.eqb s "avg(unwrap_1.value)" then Some OAvg
+  else if String.eqb s "max(unwrap_1.value)" then Some OMax
+  else if String.eqb s "min(unwrap_1.value)" then Some OMin
+  else if String.eqb s "argMin(unwrap_1.value, unwrap_1.timestamp_ns)" then Some OFirst
+  else if String.eqb s "argMax(unwrap_1.value, unwrap_1.timestamp_ns)" then Some OLast
+  else if String.eqb s "varPop(unwrap_1.value)" then Some OVar
+  else if String.eqb s "stddevPop(unwrap_1.value)" then Some OStd
+  else if String.eqb s "toFloat64(countMerge(count))" then Some OCountMerge
+  else if String.eqb s "countMerge(count)" then Some OCountMerge
+  else None.
+Definition parse_obs (s : string) : option (obs_fn * option Qc) :=
+  match split_at " / " s (String.length s) EmptyString with
+  | Some (h, t) => match obs_fn_of h with Some f => Some (f, Some (dec_value t)) | None => None end
+  | None => match obs_fn_of s with Some f => Some (f, None) | None => None end
+  end.
+Definition obs_agg_of (s : string) : option agg_fn :=
+  if String.eqb s "sum(lra_main.value)" then Some ASum
+  else if String.eqb s "min(lra_main.value)" then Some AMin
+  else if String.eqb s "max(lra_main.value)" then Some AMax
+  else if String.eqb s "avg(lra_main.value)" then Some AAvg
+  else if String.eqb s "stddevPop(lra_main.value)" then Some AStddev
+  else if String.eqb s "varPop(lra_main.value)" then Some AStdvar
+  else if String.eqb s "count()" then Some ACount
+  else None.
+
+(* the witness window: four lines / samples of one series; every function takes a different value on it *)
+Definition wit_entries : list entry :=
+  [ {| e_labels := [("a", "b")]%string; e_ts := 10; e_line := "abc" |}; {| e_labels := [("a", "b")]%string; e_ts := 20; e_line := "" |};
+    {| e_labels := [("a", "b")]%string; e_ts := 30; e_line := "defgh" |}; {| e_labels := [("a", "b")]%string; e_ts := 40; e_line := "ij" |} ].
+Definition wit_samples : list (Z * Qc) := [(10, qz 3); (20, qz 1); (30, qz 7); (40, qz 2)].
+Definition wit_var (_ : list Qc) : Qc := qz 1001.
+Definition wit_std (_ : list Qc) : Qc := qz 1002.
+Definition obs_eval (o : obs_fn * option Qc) : Qc :=
+  let vals := map snd wit_samples in
+  let base := match fst o with
+              | OCount | OCountMerge => qlen wit_entries
+              | OBytes => qsum (map (fun e => qz (Z.of_nat (String.length (e_line e)))) wit_entries)
+              | OSum => qsum vals | OAvg => qavg vals | OMax => qmax_l vals | OMin => qmin_l vals
+              | OFirst => match argmin_ts fst wit_samples with Some x => snd x | None => qz 0 end
+              | OLast => match argmax_ts fst wit_samples with Some x => snd x | None => qz 0 end
+              | OVar => wit_var vals | OStd => wit_std vals
+              end in
+  match snd o with Some dv => Qcdiv base dv | None => base end.
+Definition spec_eval (unwrapped : bool) (f : lra_fn) (d : Z) : option Qc :=
+  if unwrapped then urange_fn wit_var wit_std f d wit_samples else range_fn f d wit_entries.
+
+(* one observation of a range aggregation: verdicts 0 = agrees with the reference, 1 = fragment not recognised,
+   2 = the fragment computes another value than the reference on the witness window, 3 = the window divisor is not the range *)
+Record lra_obs := { lo_id : Z; lo_unwrapped : bool; lo_f : lra_fn; lo_dur : Z; lo_bucket : Z; lo_value : string }.
+Definition lra_obs_verdict (o : lra_obs) : Z :=
+  if negb (Z.eqb (lo_bucket o) (lo_dur o)) then 3 else
+  match parse_obs (lo_value o), spec_eval (lo_unwrapped o) (lo_f o) (lo_dur o) with
+  | Some p, Some want => if qeqb (obs_eval p) want then 0 else 2
+  | _, _ => 1
+  end.
+Definition lra_obs_bad (os : list lra_obs) : list (Z * Z) :=
+  flat_map (fun o => let v := lra_obs_verdict o in if Z.eqb v 0 then [] else [(lo_id o, v)]) os.
+Record agg_obs := { ao_id : Z; ao_f : agg_fn; ao_value : string }.
+Definition agg_obs_verdict (o : agg_obs) : Z :=
+  match obs_agg_of (ao_value o) with
+  | None => 1
+  | Some g => if qeqb (eval_agg wit_var wit_std g (map snd wit_samples)) (eval_agg wit_var wit_std (ao_f o) (map snd wit_samples)) then 0 else 2
+  end.
+Definition agg_obs_bad (os : list agg_obs) : list (Z * Z) :=
+  flat_map (fun o => let v := agg_obs_verdict o in if Z.eqb v 0 then [] else [(ao_id o, v)]) os.
+
+(* post-processor cases: the real FixPeriodPlanner / ZeroEaterPlanner on scripted batches; values are quarters, kept as
+   their integer numerators (the post-processors only test values for zero and copy them) *)
+Record pcase := { pc_id : Z; pc_zero : bool (* ZeroEater, else FixPeriod *); pc_from : Z; pc_to : Z; pc_step : Z; pc_dur : Z;
+                  pc_in : list (list (Z * N * Z)); pc_out : list (list (Z * N * Z)) }.
+Definition zentry := pentry Z.
+Definition pe_of (x : Z * N * Z) : zentry := {| pe_ts := fst (fst x); pe_fp := snd (fst x); pe_val := snd x |}.
+Definition pe_eqb (a b : zentry) : bool := Z.eqb (pe_ts a) (pe_ts b) && N.eqb (pe_fp a) (pe_fp b) && Z.eqb (pe_val a) (pe_val b).
+Fixpoint list_eqb {A} (eqb : A -> A -> bool) (a b : list A) : bool :=
+  match a, b with [], [] => true | x :: r, y :: r' => eqb x y && list_eqb eqb r r' | _, _ => false end.
+Definition pcase_mismatch (c : pcase) : bool :=
+  let inp := map (map pe_of) (pc_in c) in
+  let model := if pc_zero c then zero_eater (Z.eqb 0) inp else fix_period (Z.eqb 0) 0 (pc_from c) (pc_to c) (pc_step c) (pc_dur c) inp in
+  negb (list_eqb (list_eqb pe_eqb) model (map (map pe_of) (pc_out c))).
+Definition post_mismatches (cs : list pcase) : list Z := map pc_id (filter pcase_mismatch cs).
+(* what any step-fixed matrix must look like, judged on the OBSERVED output of FixPeriodPlanner: points lie on the
+   grid from + i*step inside the array, ascend within a batch, carry no zero, one batch per run of a fingerprint,
+   and every value is the value of an input entry of that series whose range window [b, b+d) covers or touches the slot *)
+Definition covers (from step d : Z) (out inp : zentry) : bool :=
+  let b := Z.quot (pe_ts inp) d * d in
+  N.eqb (pe_fp inp) (pe_fp out) && Z.eqb (pe_val inp) (pe_val out)
+  && Z.leb (Z.quot (b - from) step) (Z.quot (pe_ts out - from) step) && Z.leb (Z.quot (pe_ts out - from) step) (Z.quot (b + d - from) step).
+Fixpoint ascending (l : list zentry) : bool :=
+  match l with a :: ((b :: _) as r) => Z.ltb (pe_ts a) (pe_ts b) && N.eqb (pe_fp a) (pe_fp b) && ascending r | _ => true end.
+Definition fix_out_ok (c : pcase) : bool :=
+  let from := pc_from c in let step := pc_step c in let d := pc_dur c in
+  let inp := map (fun i => let b := Z.quot (pe_ts i) d * d in (pe_fp i, pe_val i, Z.quot (b - from) step, Z.quot (b + d - from) step))
+                 (List.concat (map (map pe_of) (pc_in c))) in
+  let n := Z.quot (pc_to c - from) step + 1 in
+  forallb (fun b => negb (match b with [] => true | _ => false end) && ascending b &&
+             forallb (fun e => let k := Z.quot (pe_ts e - from) step in
+                               Z.eqb (Z.rem (pe_ts e - from) step) 0 && Z.leb from (pe_ts e) && Z.ltb k n && negb (Z.eqb (pe_val e) 0)
+                               && existsb (fun x => match x with (f, v, i0, i1) => N.eqb f (pe_fp e) && Z.eqb v (pe_val e) && Z.leb i0 k && Z.leb k i1 end) inp) b)
+          (map (map pe_of) (pc_out c)).
+Definition zero_out_ok (c : pcase) : bool :=
+  list_eqb pe_eqb (List.concat (map (map pe_of) (pc_out c)))
+                  (filter (fun e => negb (Z.eqb (pe_val e) 0)) (List.concat (map (map pe_of) (pc_in c)))).
+Definition post_spec_violations (cs : list pcase) : list Z :=
+  map pc_id (filter (fun c => negb (if pc_zero c then zero_out_ok c else fix_out_ok c)) cs).
